@@ -30,7 +30,7 @@ try:
         parts = text.split(old)
         text = old.join(parts[:nth]) + new + old.join(parts[nth:])
     open(path, "w").write(text)
-    env = dict(os.environ, VERIF_REPO=scratch)
+    env = dict(os.environ, VERIF_REPO=scratch, ZCV_EVIDENCE_DIR=os.path.join(scratch, "ev"), ZCV_FAILURES_DIR=os.path.join(scratch, "fail"))
     for pid in ids.split(","):
         t0 = time.time()
         p = subprocess.run(["/verif/check", pid, tier], env=env, capture_output=True, text=True)
